@@ -128,9 +128,16 @@ func (c *c18) logout(ch *kernel.Chooser) string {
 	}
 	oc := w.Store.Clients[uriOwner]
 	requested, uriKind := "", "absent"
-	switch ch.Int(8) {
+	switch ch.Int(9) {
 	case 0, 1, 2:
-		requested, uriKind = oc.PostLogout[0], "registered-of-"+uriOwner
+		requested, uriKind = oc.PostLogout[ch.Int(len(oc.PostLogout))], "registered-of-"+uriOwner
+	case 8:
+		// an exactly registered URI read as a pattern (? * classes) matches this one; as a string it does not
+		reg := oc.PostLogout[ch.Int(len(oc.PostLogout))]
+		requested, uriKind = strings.NewReplacer("?", "X", "*", "zz", "[ab]", "a").Replace(reg), "exact-read-as-pattern"
+		if requested == reg {
+			requested += "x"
+		}
 	case 3:
 		requested, uriKind = oc.PostLogout[0]+"/x", "near-miss"
 	case 4:
@@ -246,6 +253,12 @@ func RunC18(t *testing.T, spec kernel.Spec) *kernel.Outcome {
 			cl.UseGlobs = cfg.Bool(1, 2)
 			if cfg.Bool(1, 3) {
 				cl.PostLogout = append(cl.PostLogout, "https://shared.sim/bye")
+			}
+			// exact registrations that contain glob metacharacters are strings, not patterns
+			for _, lit := range []string{"https://" + id + ".sim/bye?done=1", "https://*." + id + ".sim/bye", "https://" + id + ".sim/[ab]/bye"} {
+				if cfg.Bool(1, 3) {
+					cl.PostLogout = append(cl.PostLogout, lit)
+				}
 			}
 			cl.IDLifetime = time.Duration(cfg.Range(1, 10)) * time.Minute
 		}
